@@ -8,7 +8,7 @@ where, in which order, which values the header fields carry - not how the functi
 (helpers, goto cleanup, early returns, hoisted locals and field-writing helpers leave the trace
 unchanged)."""
 from . import sem
-from .skeleton import Ptr, U
+from .skeleton import Ptr, U, Sym
 
 PW = "src/writer/page_writer.c"
 THRIFT_W = ("thrift_write_struct_begin", "thrift_write_struct_end", "thrift_write_field_header",
@@ -98,13 +98,33 @@ def trace(P, crc=False, stats=False, minmax=False, rep=True, deff=True, codec=0,
             it.heap[(a[0].base, a[0].off + bo["data"])] = Ptr("data@%s+%s" % (a[0].base, a[0].off), 0, 1)
         return 0
 
+    chains = {}
+
+    def crc_hook(update):
+        # a CRC value is an opaque 32-bit term naming the byte ranges folded into it so far, in order
+        def f(ev, a, it):
+            prev, data, n = (a[0], a[1], a[2]) if update else (0, a[0], a[1])
+            if isinstance(prev, Sym) and isinstance(prev.t, tuple) and prev.t[0] == "crc":
+                segs = list(chains[prev.t[1]])
+            elif prev == 0:
+                segs = []
+            else:
+                raise sem.Inconclusive("CRC continued from a value that is not a CRC (%r)" % (prev,))
+            if n != 0:
+                segs.append((bid(data), n))
+            k = len(chains) + 1
+            chains[k] = segs
+            ev.append(("crc", k, tuple(segs)))
+            return Sym(("crc", k), 32)
+        return f
+
     def codec_hook(ev, a, it):
         ev.append(("codec", bid(a[0]), a[1]))
         sem.set_out(it, a[4], COMPRESSED)
         return 0
     hooks = {"carquet_buffer_init": b_init, "carquet_buffer_clear": b_clear, "carquet_buffer_append": b_append,
              "carquet_buffer_destroy": lambda ev, a, it: ev.append(("destroy", bid(a[0]))),
-             "carquet_crc32": lambda ev, a, it: ev.append(("crc", bid(a[0]), a[1])) or CRCV,
+             "carquet_crc32": crc_hook(False), "carquet_crc32_update": crc_hook(True),
              "thrift_encoder_init": lambda ev, a, it: ev.append(("enc-init", bid(a[1]))),
              "thrift_encoder_has_error": lambda ev, a, it: 0,
              "carquet_snappy_compress": codec_hook,
@@ -117,4 +137,17 @@ def trace(P, crc=False, stats=False, minmax=False, rep=True, deff=True, codec=0,
             "usize": heap.get(("out_usize", 0)), "csize": heap.get(("out_csize", 0)),
             "page_buffer": ("pw", wo["page_buffer"]),
             "page_size": heap.get(("pw", wo["page_buffer"] + bo["size"]))}
-    return Trace(ret, ev, outs)
+    T = Trace(ret, ev, outs)
+    T.chains = chains
+    return T
+
+
+def crc_chain(T, value):
+    """The (source, size) ranges folded into the CRC value `value` (what the header's field 4 carries), or None
+    when it is not a value the CRC routines returned."""
+    t = value.t if isinstance(value, Sym) else None
+    while isinstance(t, tuple) and t[0] == "cast":
+        t = t[2]
+    if isinstance(t, tuple) and t[0] == "crc":
+        return list(T.chains[t[1]])
+    return None
